@@ -49,7 +49,7 @@ for cid in "$ID" "$@"; do
   last=$(echo "$out" | tail -1)
   res "check $cid: $last"; res "  signatures: $sigs"
   if echo "$out" | grep -q "^VIOLATION"; then DET="$DET $cid"; fi
-  rm -rf /verif/.build/$(echo $cid | tr A-Z a-z)-alt-*
+  rm -rf /verif/.build/$(echo $cid | tr A-Z a-z)-alt-$(echo "$WT" | tr / _)
 done
 python3 - "$ID" "$K" "$A" "$B" "$S" "$DET" "$SRC" "$TAG" <<'PY'
 import json,sys,os
